@@ -93,12 +93,13 @@ func (n *JSNode) prec() int {
 
 // JSOpts selects generator features.
 type JSOpts struct {
-	NoRegex       bool // no regular expression literals (the C04 oracle lexes the printed program)
-	PlainKeys     bool // object keys / pattern keys never coincide with variable names and no shorthand
-	NoClassSelf   bool // class expressions never reference their own name (recorded known finding)
-	NoModuleItems bool // no import/export
-	MaxStmts      int
-	Budget        int // expression/statement budget (0 = random 20..140)
+	NoRegex          bool // no regular expression literals (the C04 oracle lexes the printed program)
+	PlainKeys        bool // object keys / pattern keys never coincide with variable names and no shorthand
+	NoClassSelf      bool // class expressions never reference their own name (recorded known finding)
+	NoModuleItems    bool // no import/export
+	MaxStmts         int
+	ParamDefaultRefs bool // parameter defaults mention variables of the scopes outside the function
+	Budget           int  // expression/statement budget (0 = random 20..140)
 }
 
 type jsScope struct {
@@ -112,25 +113,29 @@ type jsScope struct {
 }
 
 type jsGen struct {
-	r       *rand.Rand
-	o       JSOpts
-	nextID  int
-	fresh   int
-	scope   *jsScope
-	inFunc  int
-	inGen   bool
-	inAsync bool
-	inLoop  int
-	inSwitch int
-	labels  []string
-	budget  int
+	r             *rand.Rand
+	o             JSOpts
+	nextID        int
+	fresh         int
+	scope         *jsScope
+	inFunc        int
+	inGen         bool
+	inAsync       bool
+	inLoop        int
+	inSwitch      int
+	labels        []string
+	budget        int
 	inClassMethod bool
 	newTargetOK   bool
-	reserved      string // name of the function expression being entered: not redeclared inside it
-	bodyReserved  []string // names declared by a loop head: not redeclared lexically in the loop body block (known finding)
-	noRefs        int // >0: no identifier references are generated (parameter lists: no forward references between parameters)
+	reserved      string          // name of the function expression being entered: not redeclared inside it
+	bodyReserved  []string        // names declared by a loop head: not redeclared lexically in the loop body block (known finding)
+	avoid         map[string]bool // names a reference must not use (parameter names of the function whose defaults are being generated)
+	refOuterFn    *jsScope
+	noLexicalHere *jsScope // no let/const/class declaration directly in this scope any more
+	refOuter      *jsScope // when set, references are resolved from this scope (parameter defaults see the scope outside the function)
+	noRefs        int      // >0: no identifier references are generated (parameter lists: no forward references between parameters)
 	exported      bool
-	refs    []*JSNode
+	refs          []*JSNode
 }
 
 var jsNamePool = []string{"a", "b", "c", "x", "y"}
@@ -146,11 +151,10 @@ func (g *jsGen) newScope(kind string) *jsScope {
 }
 
 func (g *jsGen) push(kind string) *jsScope { g.scope = g.newScope(kind); return g.scope }
-func (g *jsGen) pop()                     { g.scope = g.scope.parent }
+func (g *jsGen) pop()                      { g.scope = g.scope.parent }
 
 // declare registers a binding of the given declaration kind and returns the identifier node.
 func (g *jsGen) declare(kind string) *JSNode {
-	var target *jsScope
 	name := ""
 	for try := 0; try < 8 && name == ""; try++ {
 		cand := Pick(g.r, jsNamePool)
@@ -158,34 +162,41 @@ func (g *jsGen) declare(kind string) *JSNode {
 			g.fresh++
 			cand = fmt.Sprintf("u%d", g.fresh)
 		}
-		switch kind {
-		case "var", "function":
-			// hoists to the enclosing function: illegal if a scope on the way declares the name lexically
-			ok := true
-			for s := g.scope; s != nil; s = s.parent {
-				if s.lexical[cand] {
-					ok = false
-				}
-				if s == g.scope.fn || s.kind == "func" || s.kind == "module" {
-					break
-				}
-			}
-			if kind == "function" && g.scope.vars[cand] {
-				ok = false
-			}
-			if ok {
-				name = cand
-			}
-		default: // let const class param catch fname for-let
-			if !g.scope.lexical[cand] && !g.scope.vars[cand] {
-				name = cand
-			}
+		if g.canDeclare(kind, cand) {
+			name = cand
 		}
 	}
 	if name == "" {
 		g.fresh++
 		name = fmt.Sprintf("u%d", g.fresh)
 	}
+	return g.declareName(kind, name)
+}
+
+// canDeclare reports whether a declaration of that kind and name is legal in the current scope.
+func (g *jsGen) canDeclare(kind, cand string) bool {
+	switch kind {
+	case "var", "function":
+		// hoists to the enclosing function: illegal if a scope on the way declares the name lexically
+		for s := g.scope; s != nil; s = s.parent {
+			if s.lexical[cand] {
+				return false
+			}
+			if s == g.scope.fn || s.kind == "func" || s.kind == "module" {
+				break
+			}
+		}
+		if kind == "function" && g.scope.vars[cand] {
+			return false
+		}
+		return true
+	}
+	// let const class param catch fname for-let
+	return !g.scope.lexical[cand] && !g.scope.vars[cand]
+}
+
+func (g *jsGen) declareName(kind, name string) *JSNode {
+	var target *jsScope
 	switch kind {
 	case "var", "function":
 		target = g.scope.fn
@@ -220,10 +231,17 @@ func (g *jsGen) ref() *JSNode {
 		return &JSNode{K: "num", S: "7"}
 	}
 	name := Pick(g.r, jsNamePool)
-	if g.r.Intn(12) == 0 {
+	for try := 0; g.avoid[name] && try < 6; try++ {
+		name = Pick(g.r, jsNamePool)
+	}
+	if g.r.Intn(12) == 0 || g.avoid[name] {
 		name = Pick(g.r, []string{"g1", "Math", "undefined", "console"})
 	}
 	n := &JSNode{K: "ident", S: name, Ref: g.scope}
+	if g.refOuter != nil && g.scope.fn == g.refOuterFn {
+		// directly inside a parameter default (not in a function nested in it): resolved outside the function
+		n.Ref = g.refOuter
+	}
 	g.refs = append(g.refs, n)
 	return n
 }
@@ -258,6 +276,34 @@ cont"`, `''`, `"é日"`, `'</script>'`, `"use\x20strict"`})}
 	default:
 		return g.ref()
 	}
+}
+
+// lit0 is a literal that mentions no variable.
+func (g *jsGen) lit0() *JSNode {
+	return &JSNode{K: "num", S: Pick(g.r, []string{"0", "1", "42", "0x1F"})}
+}
+
+// simpleDefault generates a parameter default: a reference, a literal, or a small operator expression over them
+// (no nested functions: their bodies would see the function's own scope again).
+func (g *jsGen) simpleDefault() *JSNode {
+	r := g.r
+	leaf := func() *JSNode {
+		if r.Intn(3) > 0 {
+			return g.ref()
+		}
+		return &JSNode{K: "num", S: Pick(r, []string{"0", "1", "42"})}
+	}
+	switch r.Intn(5) {
+	case 0:
+		return &JSNode{K: "bin", Op: Pick(r, []string{"+", "*", "||", "??", "<"}), Kids: []*JSNode{leaf(), leaf()}}
+	case 1:
+		return &JSNode{K: "member", S: "p", Kids: []*JSNode{g.ref()}}
+	case 2:
+		return &JSNode{K: "call", Kids: []*JSNode{g.ref(), leaf()}}
+	case 3:
+		return &JSNode{K: "array", Kids: []*JSNode{leaf(), leaf()}}
+	}
+	return leaf()
 }
 
 func (g *jsGen) template(depth int) *JSNode {
@@ -376,18 +422,47 @@ func (g *jsGen) function(kind string, async, generator bool, exprBody bool) (par
 	np := r.Intn(4)
 	g.noRefs++
 	for i := 0; i < np; i++ {
-		el := &JSNode{K: "patel", Kids: []*JSNode{g.pattern("param", 1)}}
-		if r.Intn(4) == 0 {
-			// the default may only mention names that cannot be body declarations: literals keep the oracle
-			// independent of the parameter/body environment split
-			el.Kids = append(el.Kids, g.lit())
-		}
-		params.Kids = append(params.Kids, el)
+		params.Kids = append(params.Kids, &JSNode{K: "patel", Kids: []*JSNode{g.pattern("param", 1)}})
 	}
 	if r.Intn(6) == 0 {
 		params.Kids = append(params.Kids, &JSNode{K: "rest", Kids: []*JSNode{g.pattern("param", 1)}})
 	}
 	g.noRefs--
+	// Default values: they may mention variables, but never a parameter of this function (no forward references between
+	// parameters), and what they mention is resolved in the scope *outside* the function: declarations of the body are
+	// invisible to parameter defaults (separate environments when a parameter list has initialisers).
+	var mentioned []string // names the parameter defaults mention
+	refStart := len(g.refs)
+	if g.o.ParamDefaultRefs {
+		saveAvoid, saveOuter, saveOuterFn := g.avoid, g.refOuter, g.refOuterFn
+		g.avoid = map[string]bool{}
+		for n := range saveAvoid {
+			g.avoid[n] = true
+		}
+		for n := range g.scope.decl {
+			g.avoid[n] = true
+		}
+		g.refOuter, g.refOuterFn = g.scope.parent, g.scope
+		for _, el := range params.Kids {
+			if el.K == "patel" && r.Intn(3) == 0 {
+				el.Kids = append(el.Kids, g.simpleDefault())
+			}
+		}
+		g.avoid, g.refOuter, g.refOuterFn = saveAvoid, saveOuter, saveOuterFn
+		seen := map[string]bool{}
+		for _, n := range g.refs[refStart:] {
+			if !seen[n.S] {
+				seen[n.S] = true
+				mentioned = append(mentioned, n.S)
+			}
+		}
+	} else {
+		for _, el := range params.Kids {
+			if el.K == "patel" && r.Intn(4) == 0 {
+				el.Kids = append(el.Kids, g.lit())
+			}
+		}
+	}
 	g.inGen, g.inAsync = generator, async
 	simple := true
 	for _, p := range params.Kids {
@@ -401,6 +476,18 @@ func (g *jsGen) function(kind string, async, generator bool, exprBody bool) (par
 		body = &JSNode{K: "body"}
 		if simple && r.Intn(10) == 0 {
 			body.Kids = append(body.Kids, &JSNode{K: "directive", S: `"use strict"`})
+		}
+		// Names the defaults mention (C04 domain, known finding param-default-use-vs-body-declaration): the body declares
+		// such a name at function level only at its very start (before any use), never later.
+		for _, name := range mentioned {
+			kind := Pick(r, []string{"var", "let", "const"})
+			if r.Intn(2) == 0 && g.canDeclare(kind, name) {
+				d := &JSNode{K: "declarator", Kids: []*JSNode{g.declareName(kind, name), g.lit0()}}
+				body.Kids = append(body.Kids, &JSNode{K: "vardecl", Op: kind, Kids: []*JSNode{d}})
+			}
+		}
+		for _, name := range mentioned {
+			g.scope.lexical[name], g.scope.vars[name] = true, true
 		}
 		for i := r.Intn(4); i > 0 && g.budget > 0; i-- {
 			body.Kids = append(body.Kids, g.stmt(1, true))
@@ -857,6 +944,9 @@ func (g *jsGen) stmt(depth int, top bool) *JSNode {
 	case c < 6:
 		return &JSNode{K: "exprstmt", Kids: []*JSNode{g.expr(1, pComma)}}
 	case c < 10:
+		if g.scope == g.noLexicalHere {
+			return g.block(depth) // declarations go one block deeper
+		}
 		return g.varDecl(Pick(r, []string{"var", "let", "const"}), depth, false)
 	case c == 10:
 		return g.block(depth)
@@ -1016,6 +1106,9 @@ func (g *jsGen) stmt(depth int, top bool) *JSNode {
 		}
 		return &JSNode{K: "exprstmt", Kids: []*JSNode{g.expr(1, pComma)}}
 	case c == 26:
+		if g.scope == g.noLexicalHere {
+			return &JSNode{K: "debugger"}
+		}
 		return g.class(false)
 	case c == 27:
 		return &JSNode{K: "debugger"} // no empty statement directly inside a statement list: the parser folds ";;" (pinned by the unit tests for "{};;")
@@ -1042,12 +1135,51 @@ func (g *jsGen) substmt(depth int) *JSNode {
 
 func (g *jsGen) loopBody(depth int) *JSNode {
 	if g.o.PlainKeys && g.scope.kind == "for" {
-		// C04 domain (known finding for-head-and-body-share-a-scope): the block that is the body of a for statement
-		// declares nothing itself; declarations sit one block deeper
-		if g.r.Intn(2) == 0 {
-			return &JSNode{K: "block", Kids: []*JSNode{g.block(depth)}}
+		// C04 domain (known findings for-head-shadowed-in-body / for-head-use-vs-body-let): the block that is the body of a
+		// for statement declares its lexical names *first* (no use of a name before its declaration in that block) and never
+		// a name the loop head declares.
+		if g.r.Intn(3) == 0 {
+			return &JSNode{K: "exprstmt", Kids: []*JSNode{g.expr(2, pComma)}}
 		}
-		return &JSNode{K: "exprstmt", Kids: []*JSNode{g.expr(2, pComma)}}
+		var head []string
+		for n := range g.scope.decl {
+			head = append(head, n)
+		}
+		for n := range g.scope.vars {
+			head = append(head, n)
+		}
+		g.push("block")
+		for _, n := range head {
+			g.scope.lexical[n], g.scope.vars[n] = true, true
+		}
+		blk := &JSNode{K: "block"}
+		// the names first, then the initialisers, which mention none of them (not even from a nested function)
+		var decls []*JSNode
+		saveAvoid := g.avoid
+		g.avoid = map[string]bool{}
+		for n := range saveAvoid {
+			g.avoid[n] = true
+		}
+		for i := g.r.Intn(3); i > 0; i-- {
+			kind := Pick(g.r, []string{"let", "const"})
+			id := g.declare(kind)
+			g.avoid[id.S] = true
+			decls = append(decls, &JSNode{K: "vardecl", Op: kind, Kids: []*JSNode{{K: "declarator", Kids: []*JSNode{id}}}})
+		}
+		for _, d := range decls {
+			d.Kids[0].Kids = append(d.Kids[0].Kids, g.expr(depth+2, pAssign))
+			blk.Kids = append(blk.Kids, d)
+		}
+		g.avoid = saveAvoid
+		// from here on no further lexical declaration directly in this block
+		saveNL := g.noLexicalHere
+		g.noLexicalHere = g.scope
+		for i := g.r.Intn(3); i > 0 && g.budget > 0; i-- {
+			blk.Kids = append(blk.Kids, g.stmt(depth+1, false))
+		}
+		g.noLexicalHere = saveNL
+		g.pop()
+		return blk
 	}
 	return g.substmt(depth)
 }
